@@ -79,7 +79,8 @@ pub fn exec(w: &[&str], obs: &mut Obs) -> Option<String> {
             let ncalls = count_calls(&d, step, cap, text, &ty).min(60);
             let mut faults = 0;
             for i in 0..ncalls {
-                for (persistent, kind) in [(false, 0usize), (true, 0), (false, 1 + i % 4), (true, 1 + (i + 1) % 4), (false, 1), (true, 1)] {
+                // a PERSISTENT fault never carries Interrupted: code that retries interrupted reads (std's own convention) would spin
+                for (persistent, kind) in [(false, 0usize), (true, 0), (false, 1 + i % 4), (true, 2 + (i + 1) % 3), (false, 1), (true, 3)] {
                     let mut steps: Vec<Step> = (0..i).map(|_| Step::Give(step)).collect();
                     steps.push(if persistent { Step::FailForever } else { Step::Fail });
                     steps.push(Step::Repeat(step));
@@ -144,7 +145,7 @@ pub fn exec(w: &[&str], obs: &mut Obs) -> Option<String> {
             let ncalls = (d.len() / step.max(1) + 2).min(80);
             let mut faults = 0;
             for i in 0..ncalls {
-                for (persistent, kind) in [(false, 1usize), (true, 1), (false, 2 + i % 3), (true, 2 + (i + 1) % 3)] {
+                for (persistent, kind) in [(false, 1usize), (true, 4), (false, 2 + i % 3), (true, 2 + (i + 1) % 3)] {
                     let mut steps: Vec<Step> = (0..i).map(|_| Step::Give(step)).collect();
                     steps.push(if persistent { Step::FailForever } else { Step::Fail });
                     steps.push(Step::Repeat(step));
